@@ -35,6 +35,7 @@ def run(ctx, rep):
     from .C01 import wiresig
     wiresig(ctx, rep, ids=("rabs", "direct", "bit_region", "rans_end", "kd_points"))
     widenshift(ctx, rep)
+    pairstate(ctx, rep)
     from ..predsig import run_sibling_fp
     rep.rules_text.append("SIBLING-FP: a bit / entropy coder's encoder and decoder classes that both compute in floating point use the same floating-point types (adaptive state derived on both sides must be bit-identical)")
     n_fp = run_sibling_fp(ctx, rep, ("/draco/compression/bit_coders/", "/draco/compression/entropy/", "/draco/core/"))
@@ -164,3 +165,51 @@ def widenshift(ctx, rep):
     rep.control("SHIFT-LEDGER", "c17_wideshift_bad", lf, "an unlisted full-width shift must be reported")
     rep.floor("run-time left shifts in the bitstream primitives", n_sh, 5)
     rep.control("WIDENSHIFT", "c17_widenshift_bad", fired, "a widened 32-bit shift must be reported")
+
+
+def pairstate(ctx, rep):
+    """PAIRSTATE: what a sequence's End* reads, its Start* has written - on every path.  A member that Start*
+    writes only in one branch (the stored size of a *sized* bit sequence) still holds the previous sequence's
+    value when the next sequence takes the other branch, and End* then uses it."""
+    from ..core import Obligation, DISCHARGED, VIOLATION
+    from ..reset import Run
+    F = ctx.F
+    rep.rules_text.append(
+        "PAIRSTATE: for every Start*/End* method pair of the buffer and bit-coder classes, a member that End* reads "
+        "and Start* writes on some path is written on every successful path of Start* (no value of an earlier "
+        "sequence survives into a later one)")
+    dirs = ("/draco/core/", "/compression/bit_coders/", "/compression/entropy/")
+    by_cls = {}
+    for fn in F.fns.values():
+        is_ctl = fn.name.startswith("verif_control::ps17_")
+        if not fn.cls or not (any(d in fn.file for d in dirs) or is_ctl):
+            continue
+        sh = fn.base.rsplit("::", 1)[-1]
+        if sh.startswith(("Start", "End")):
+            by_cls.setdefault(strip_targs(fn.cls), {}).setdefault(sh, fn)
+    n, fired = 0, False
+    for cls, ms in sorted(by_cls.items()):
+        is_ctl = cls.startswith("verif_control::")
+        for sname, sfn in sorted(ms.items()):
+            if not sname.startswith("Start"):
+                continue
+            efn = ms.get("End" + sname[5:])
+            if efn is None:
+                continue
+            eff = Run.effects(None, sfn)
+            written = {}
+            for b, f, kind in eff:
+                written.setdefault(f, set()).add(b)
+            reads = Run.reads(None, efn)
+            for f in sorted(set(written) & reads):
+                ok = Run._must_pass(None, sfn, written[f])
+                n += 0 if is_ctl else 1
+                fired |= is_ctl and not ok
+                rep.add(Obligation("PAIRSTATE", sfn.base, "writes %s (read by %s)" % (f[1], efn.base.rsplit("::", 1)[-1]),
+                                   sfn.loc, DISCHARGED if ok else VIOLATION, control=is_ctl, trivial=ok,
+                                   detail="written on every successful path" if ok else
+                                   "%s reads %s, which %s writes on some paths only: after a sequence that took the writing "
+                                   "branch, a sequence that does not still sees the old value" % (
+                                       efn.base.replace("draco::", ""), f[1], sfn.base.replace("draco::", ""))))
+    rep.floor("Start*/End* member hand-overs in the buffer and bit-coder classes", n, 3)
+    rep.control("PAIRSTATE", "ps17_ pair", fired, "a member written in one branch of Start and read by End must be reported")
